@@ -145,14 +145,14 @@ def gen_case(rng, nmax):
 
 
 def enc_vec(v):
-    return [exact.enc_scalar(complex(x)) for x in np.asarray(v).reshape(-1)]
+    return [kk.enc_scalar(x) for x in np.asarray(v).reshape(-1)]
 
 
 def _enc1d(x):
     x = np.asarray(x)
     if x.ndim != 1 or x.dtype.kind != 'f':
         return {'not-a-real-vector': [str(x.dtype), list(x.shape)]}
-    return exact.enc_reals(x)
+    return kk.enc_reals(x)
 
 
 def call_impl(func, case, extra=None):
@@ -173,16 +173,16 @@ def call_impl(func, case, extra=None):
             with kk.patched(rec):
                 if func == 'lanczos':
                     al, be, V = krylov.lanczos_iteration(Afunc, v, m)
-                    raw.extend([al, be, V])
-                    return {'alpha': _enc1d(al), 'beta': _enc1d(be), 'V': exact.enc_array(V)}
+                    raw.extend([al, V])
+                    return {'alpha': _enc1d(al), 'beta': _enc1d(be), 'V': kk.enc_array(V)}
                 if func == 'arnoldi':
                     H, V = krylov.arnoldi_iteration(Afunc, v, m)
-                    raw.extend([H, V])
-                    return {'H': exact.enc_array(H), 'V': exact.enc_array(V)}
+                    raw.extend([np.triu(H), V])
+                    return {'H': kk.enc_array(H), 'V': kk.enc_array(V)}
                 if func == 'eigh':
                     w, u = krylov.eigh_krylov(Afunc, v, m, extra['numeig'])
                     raw.extend([w, u])
-                    return {'w': _enc1d(w), 'u': exact.enc_array(u)}
+                    return {'w': _enc1d(w), 'u': kk.enc_array(u)}
                 r = krylov.expm_krylov(Afunc, v, extra['dt'], m, extra['hermitian'])
                 raw.append(r)
                 if np.asarray(r).ndim != 1:
@@ -200,11 +200,11 @@ def call_impl(func, case, extra=None):
 
 
 def make_op(func, case, rec, extra=None):
-    op = {'op': 'kry.' + func, 'A': exact.enc_array(case['A']), 'vstart': enc_vec(case['v']), 'numiter': case['m'], 'kernels': rec.calls}
+    op = {'op': 'kry.' + func, 'A': kk.enc_array(case['A']), 'vstart': enc_vec(case['v']), 'numiter': case['m'], 'kernels': rec.calls}
     if func == 'eigh':
         op['numeig'] = extra['numeig']
     if func == 'expm':
-        op['dt'] = exact.enc_scalar(complex(extra['dt']))
+        op['dt'] = kk.enc_scalar(extra['dt'])
         op['hermitian'] = bool(extra['hermitian'])
     return op
 
